@@ -9,7 +9,8 @@ Runs the REAL sshuttle code inside a simulated boundary:
                onaccept_tcp created: the identifier stays in mux.channels with the value None);
   server side: the REAL server.main loop (with the real ssnet.runonce, Mux.callback/handle, DnsProxy,
                UdpProxy, dns_req/udp_open/udp_req closures and sweeps); select.select, the pipe files,
-               socket.socket, getaddrinfo, get_random_nameserver and the clock are scripted.
+               socket.socket, getaddrinfo, get_random_nameserver and the clock are scripted; in the resolv.conf histories of
+               C10 (run_c10_resolv) get_random_nameserver / resolvconf_nameservers are the REAL ones and only the file is scripted.
 The same event scripts are rendered as lines for the extracted Coq model (drivers/c10_driver.ml)."""
 import errno
 import socket as real_socket
@@ -637,6 +638,7 @@ class ServerWorld:
         self.wfile = FakeW()
         self.handlers = None
         self.mux = None
+        self.on_dns_connect = None
 
     def pop(self, op=None):
         """the environment's answer to the next socket operation.  ("P", errno, ops) is a PERSISTENT fault rule: it
@@ -661,6 +663,8 @@ def make_sock_class(world):
 
         def connect(self, a):
             it = world.pop("connect")
+            if self.family == DNS_FAMILY and world.on_dns_connect is not None:
+                world.on_dns_connect(self, a, it)     # resolv.conf histories: one attempt of DnsProxy.try_send
             if it[0] == "e":
                 world.log.append("C:%d:%s:0" % (self.id, addr_s(a)))
                 raise OSError(it[1], "scripted connect")
@@ -731,13 +735,17 @@ def _server_state(world, server):
                                                     len(world.socks))
 
 
-def run_server(to_ns, sysns, events, lbs=32768):
+def run_server(to_ns, sysns, events, lbs=32768, resolv=None, trace=None):
     """events: (now, frames, ready, io); frames = [(ch, cmdkey, payload, tag)], ready = [sock id],
     io = [("k",) | ("e", errno) | ("d", bytes) | ("f", bytes, (ip, port)) | ("n", k)]
     Drives the real server.main; returns canonical per-step strings.
     lbs = server.main's latency_buffer_size argument (what the client passes on from --latency-buffer-size; main stores
     it in ssnet.LATENCY_BUFFER_SIZE, restored here).  Bytes of the tunnel that one Mux read (at most lbs bytes) leaves
-    behind stay in the pipe, which then stays readable in the following iterations."""
+    behind stay in the pipe, which then stays readable in the following iterations.
+    resolv (a ResolvFile) = the history models one server PROCESS on a host whose /etc/resolv.conf changes: the REAL
+    helpers.get_random_nameserver / resolvconf_nameservers run (no stub, `sysns` and ("n", k) items are unused); only the
+    file boundary is scripted (`open` as seen from the helpers module serves the file's CURRENT text).  Every attempt of
+    DnsProxy.try_send (connect on a resolver socket) is entered into `trace` with the text the file holds at that moment."""
     import sshuttle.server as server
     import sshuttle.ssnet as ssnet
     import sshuttle.helpers as helpers
@@ -766,6 +774,8 @@ def run_server(to_ns, sysns, events, lbs=32768):
         now, frames, ready, io = events[state["i"]]
         world.now = now
         world.io = list(io)
+        if resolv is not None:
+            resolv.at_iteration(state["i"])
         rl = []
         if frames:
             world.rfile.chunks = world.rfile.chunks + [b"".join(struct.pack("!ccHHH", b"S", b"S", ch, CMD[k], len(d)) + d
@@ -798,11 +808,30 @@ def run_server(to_ns, sysns, events, lbs=32768):
     saved = (server.socket, server.time, server.io, server.get_random_nameserver, server.log, ssnet.select,
              ssnet.runonce, ssnet.set_non_blocking_io, ssnet.log, helpers.log, sys.stdout)
     saved_lbs = ssnet.LATENCY_BUFFER_SIZE
+    no_open = object()
+    saved_open = helpers.__dict__.get("open", no_open)
+    saved_rnd = None
+    if resolv is not None:
+        import random as real_random
+        saved_rnd = real_random.getstate()
+
+        def on_dns_connect(sock, a, it):
+            if trace is not None:
+                trace.append({"step": state["i"], "attempt": resolv.attempts, "target": (a[0], a[1]), "text": resolv.text,
+                              "seen": list(resolv.seen), "reads": resolv.reads, "ok": it[0] != "e"})
+            resolv.after_attempt()
+        world.on_dns_connect = on_dns_connect
     try:
         server.socket = Shim(real_socket, socket=make_sock_class(world), getaddrinfo=gai)
         server.time = clock_shim(world)
         server.io = Shim(real_io, FileIO=lambda fd, mode="r": world.rfile if fd == 0 else world.wfile)
-        server.get_random_nameserver = grn
+        if resolv is None:
+            server.get_random_nameserver = grn
+        else:
+            # one history = one server process: what an earlier history left in the module is not part of it
+            helpers.__dict__.pop("_nameservers", None)
+            helpers.open = resolv.open
+            real_random.seed(resolv.shuffle_seed)
         server.log = ssnet.log = helpers.log = lambda s: None
         ssnet.select = Shim(real_select, select=fake_select)
         ssnet.runonce = runonce
@@ -821,6 +850,13 @@ def run_server(to_ns, sysns, events, lbs=32768):
         (server.socket, server.time, server.io, server.get_random_nameserver, server.log, ssnet.select,
          ssnet.runonce, ssnet.set_non_blocking_io, ssnet.log, helpers.log, sys.stdout) = saved
         ssnet.LATENCY_BUFFER_SIZE = saved_lbs
+        if resolv is not None:
+            if saved_open is no_open:
+                helpers.__dict__.pop("open", None)
+            else:
+                helpers.open = saved_open
+            helpers.__dict__.pop("_nameservers", None)
+            real_random.setstate(saved_rnd)
     return out
 
 
@@ -1937,6 +1973,8 @@ def run_check(ctx, prop):
     if prop == "C11":
         run_c11_reply_sizes(ctx)
     run_main_cases(ctx, prop)
+    if prop == "C10":
+        run_c10_resolv(ctx)
     _system_cases(ctx, rng, quick)
 
     # ---- client scripts
@@ -2028,6 +2066,8 @@ def replay(ctx, rp, prop):
         return replay_flows(prop, rp)
     if r.get("oracle") == "client-main":
         return replay_main(prop, rp)
+    if r.get("oracle") == "resolv-conf":
+        return replay_c10_resolv(prop, rp)
     if "witness" in r:
         fails, last = witness_fails(r["witness"])
         print("witness", r["witness"], "->", last)
@@ -3420,4 +3460,288 @@ def replay_main(prop, rp):
     res = run_client_main(case)
     v = main_oracle(prop, case, res)
     print("client._main ->", res["status"], res["reg"], v)
+    return bool(v)
+
+
+# ======================================================================
+# C10: "otherwise a system name server of the remote host" while the remote host's /etc/resolv.conf CHANGES during the
+# life of one server process (DHCP renewal, VPN up/down, an admin's edit, the file absent or empty for a while).
+# The real server.main / DnsProxy.try_send / helpers.get_random_nameserver / helpers.resolvconf_nameservers run; only
+# the file boundary (`open` as the helpers module sees it) is scripted.  Oracle, from the property text alone: every
+# attempt (connect on a resolver socket) goes to port 53 of a server that the file lists AT THAT MOMENT (127.0.0.1
+# when it lists none, helpers.get_random_nameserver's documented fallback); with a configured resolver (--to-ns)
+# every attempt goes to that resolver whatever the file says.
+
+class ResolvFile:
+    """the remote host's /etc/resolv.conf over one server process.  text None = the file does not exist.
+    rewrites: ["i", n, text] = rewritten just before iteration n of the main loop; ["a", n, text] = rewritten right after
+    the n-th attempt (0-based, counted over the whole process) was made, i.e. before a retry / the next query reads it."""
+
+    def __init__(self, init, rewrites, shuffle_seed=0):
+        self.text = init
+        self.rewrites = [list(r) for r in rewrites]
+        self.shuffle_seed = shuffle_seed
+        self.attempts = 0
+        self.reads = 0
+        self.seen = []
+
+    def _set(self, text):
+        if text != self.text:
+            self.seen.append(self.text)
+            self.text = text
+
+    def at_iteration(self, i):
+        for k, n, t in self.rewrites:
+            if k == "i" and n == i:
+                self._set(t)
+
+    def after_attempt(self):
+        for k, n, t in self.rewrites:
+            if k == "a" and n == self.attempts:
+                self._set(t)
+        self.attempts += 1
+
+    def open(self, path, *a, **kw):
+        if path == "/etc/resolv.conf":
+            self.reads += 1
+            if self.text is None:
+                raise FileNotFoundError(2, "No such file or directory", path)
+            return real_io.StringIO(self.text)
+        if str(path).endswith("resolv.conf"):
+            raise FileNotFoundError(2, "No such file or directory", path)     # no systemd-resolved on the scripted host
+        return open(path, *a, **kw)
+
+    def ser(self):
+        return {"init": self.text if not self.seen else self.seen[0], "rewrites": self.rewrites, "shuffle_seed": self.shuffle_seed}
+
+
+def spec_nameservers(text):
+    """resolv.conf(5): the addresses of the `nameserver` lines, in file order (keyword matched without regard to case, any
+    blanks between the words, further words on the line ignored; a line starting with # or ; is a comment)"""
+    out = []
+    for line in (text or "").split("\n"):
+        w = line.lower().split()
+        if len(w) >= 2 and w[0] == "nameserver":
+            out.append(w[1])
+    return out
+
+
+def resolv_oracle(to_ns, evs, steps, trace):
+    bad = []
+    for a in trace:
+        ip, port = a["target"][0], a["target"][1]
+        where = "iteration %d, attempt #%d of this server process" % (a["step"], a["attempt"])
+        if to_ns:
+            if (ip, port) != (to_ns[0], to_ns[1] or 53):
+                bad.append(("c10_target_configured: a resolver is configured (--to-ns) but a DNS attempt was sent elsewhere",
+                            "%s: sent to %s port %d, configured resolver is %s port %d" % (where, ip, port, to_ns[0], to_ns[1] or 53)))
+            continue
+        cur = spec_nameservers(a["text"])
+        now_s = ("lists %s" % ", ".join(cur)) if cur else \
+            ("does not exist, so only 127.0.0.1 qualifies" if a["text"] is None else "lists no name server, so only 127.0.0.1 qualifies")
+        if port != 53:
+            bad.append(("c10_target_port: a DNS attempt to a system name server was not sent to port 53",
+                        "%s: sent to %s port %d" % (where, ip, port)))
+        if str(ip).lower() in (cur or ["127.0.0.1"]):
+            continue
+        old = [t for t in a["seen"] if str(ip).lower() in (spec_nameservers(t) or ["127.0.0.1"])]
+        if old:
+            bad.append(("c10_target_stale: a DNS attempt was sent to an address that is not a name server of the remote host at that "
+                        "moment: /etc/resolv.conf named it (or, being empty, implied 127.0.0.1) at an earlier attempt of the same "
+                        "server process, but the file has been rewritten since and the attempt ignored its current contents",
+                        "%s: DNS attempt sent to %s port %d which is not a name server of the remote host at that moment "
+                        "(resolv.conf now %s; it named %s %d rewrite(s) ago; the file had been opened %d time(s) for %d attempt(s))"
+                        % (where, ip, port, now_s, ip, len(a["seen"]) - a["seen"].index(old[-1]), a["reads"], a["attempt"] + 1)))
+        else:
+            bad.append(("c10_target_not_a_system_name_server: a DNS attempt was sent to an address that /etc/resolv.conf of the remote "
+                        "host does not name at that moment (nor did it earlier)",
+                        "%s: DNS attempt sent to %s port %d; resolv.conf now %s" % (where, ip, port, now_s)))
+    # every query of these (well-formed) histories is attempted at least once, in the iteration that receives it
+    for i, (ev, st) in enumerate(zip(evs, steps)):
+        nq = sum(1 for f in ev[1] if f[1] == "Q")
+        na = sum(1 for a in trace if a["step"] == i)
+        if st.startswith("OK ") and na < nq:
+            bad.append(("c10_query_not_forwarded: a captured DNS query was not sent to any resolver",
+                        "iteration %d: %d queries, %d attempts" % (i, nq, na)))
+    return bad
+
+
+RESOLV_JUNK = ["# nameserver 10.66.66.1", ";nameserver 10.66.66.2", "nameserver", "nameserver\t ", "search example.com corp.example",
+               "options ndots:2 timeout:1", "domain example.net", "", "#nameserver 10.66.66.3", "nameservers 10.66.66.4",
+               "name server 10.66.66.5", "sortlist 10.66.66.6/255.255.255.0", "  # generated by NetworkManager", "nameserver# 10.66.66.7"]
+RESOLV_POOL = ["192.0.2.1", "198.51.100.7", "10.9.9.9", "10.0.0.1", "172.16.5.53", "203.0.113.200",
+               "2001:db8::53", "fd00:9::1", "fe80::1", "2001:DB8:0:1::A", "::1", "127.0.0.53"]
+
+
+def resolv_text(rng, servers, plain=False):
+    """a resolv.conf naming exactly `servers` (None -> file absent), dressed with comments / malformed lines"""
+    if servers is None:
+        return None
+    lines = []
+    for s in servers:
+        if plain:
+            lines.append("nameserver %s" % s)
+            continue
+        kw = rng.choice(["nameserver", "nameserver", "NameServer", "NAMESERVER"])
+        sep = rng.choice([" ", " ", "\t", "   "])
+        tail = rng.choice(["", "", "", " # primary", " 10.66.66.8", "\t; old"])
+        lines.append(rng.choice(["", "", " ", "\t"]) + kw + sep + s + tail)
+    if not plain:
+        for _ in range(rng.randint(0, 4)):
+            lines.insert(rng.randint(0, len(lines)), rng.choice(RESOLV_JUNK))
+    nl = "\n" if plain or rng.random() < 0.85 else "\r\n"
+    return nl.join(lines) + (nl if lines and rng.random() < 0.9 else "")
+
+
+def _attempt_io(rng, p_ok=0.6, other_ok=True):
+    """environment's answers for one try_send: returns (io items, number of attempts made, sockets kept)"""
+    io, n, kept = [], 0, []
+    for _ in range(3):
+        n += 1
+        r = rng.random()
+        if r < p_ok:
+            io += [("k",), ("k",)]
+            kept.append(n - 1)
+            break
+        net = r < 0.93 or not other_ok
+        bad = ("e", rng.choice(NET_ERRS if net else OTHER_ERRS))
+        io += [bad] if rng.random() < 0.5 else [("k",), bad]
+        if not net:
+            break
+    return io, n, kept
+
+
+def gen_resolv_history(rng, quick):
+    """one server process: queries (with retries on network errors, replies, receive errors) while resolv.conf is rewritten
+    between iterations and between the attempts of one query"""
+    to_ns = (rng.choice(RESOLV_POOL), rng.choice([53, 0, 5353])) if rng.random() < 0.15 else None
+
+    def new_set(prev):
+        r = rng.random()
+        if r < 0.12:
+            return []
+        if r < 0.17:
+            return None
+        pool = [x for x in RESOLV_POOL if x.lower() not in [p.lower() for p in (prev or [])]] if rng.random() < 0.85 else RESOLV_POOL
+        return rng.sample(pool, rng.choice([1, 1, 1, 2, 3]))
+    cur = new_set(None)
+    init = resolv_text(rng, cur)
+    rewrites, evs = [], []
+    now = rng.choice([0, 100, 1000000])
+    attempts = 0
+    live = []                     # (sock id, channel) of attempts that were sent: a reply / receive error may come
+    tries = {}
+    ch = 0
+    for i in range(rng.randint(2, 5 if quick else 9)):
+        now += rng.choice([0, 1, 1, 2, 5])
+        if i and rng.random() < 0.6:
+            cur = new_set(cur)
+            rewrites.append(["i", i, resolv_text(rng, cur)])
+        frames, io, ready = [], [], []
+        for _ in range(rng.choice([0, 1, 1, 1, 2])):
+            ch += 1
+            frames.append((ch, "Q", rand_payload(rng, False), 0))
+            aio, n, kept = _attempt_io(rng)
+            for j in range(n - 1):              # the file may change between the attempts of this one query
+                if rng.random() < 0.6:
+                    cur = new_set(cur)
+                    rewrites.append(["a", attempts + j, resolv_text(rng, cur)])
+            io += aio
+            tries[ch] = n
+            live += [(attempts + k, ch) for k in kept]
+            attempts += n
+        if live and rng.random() < 0.5:
+            sid, c = live.pop(rng.randrange(len(live)))
+            ready = [sid]
+            if rng.random() < 0.5 or tries[c] >= 3:
+                io.append(("d", rand_payload(rng, False)))
+            else:                                # receive error -> DnsProxy.callback retries through try_send
+                io.append(("e", rng.choice(NET_ERRS)))
+                left = 3 - tries[c]
+                aio, n, kept = _attempt_io(rng, 0.7, False)
+                n = min(n, left)
+                io += aio
+                tries[c] += n
+                live += [(attempts + k, c) for k in kept if k < n]
+                attempts += n
+        evs.append((now, frames, ready, io))
+    return to_ns, ResolvFile(init, rewrites, rng.randrange(1 << 30)), evs
+
+
+def handmade_resolv_histories():
+    E = errno
+    A, B, C6 = "nameserver 192.0.2.1\n", "nameserver 198.51.100.7\n", "# vpn up\nnameserver 2001:db8::53\nnameserver fd00:9::1\n"
+    q = lambda ch, d=b"q": (ch, "Q", d, 0)
+    H = []
+    # rewritten between two queries
+    H.append((None, A, [["i", 1, B]], [(10, [q(1)], [], []), (11, [q(2, b"q2")], [], []), (12, [], [0, 1], [("d", b"r1"), ("d", b"r2")])]))
+    # rewritten between attempt 1 and attempt 2 of ONE query (connect refused; send refused)
+    H.append((None, A, [["a", 0, B]], [(10, [q(1)], [], [("e", E.ECONNREFUSED), ("k",), ("k",)])]))
+    H.append((None, A, [["a", 0, B], ["a", 1, C6]], [(10, [q(1)], [], [("k",), ("e", E.ENETUNREACH), ("e", E.EHOSTUNREACH), ("k",), ("k",)])]))
+    # rewritten while a query waits; its receive error makes the server retry
+    H.append((None, A, [["i", 1, C6]], [(10, [q(1)], [], []), (12, [], [0], [("e", E.ECONNREFUSED), ("k",), ("k",)]), (13, [], [1], [("d", b"ans")])]))
+    # the list becomes empty / the file disappears: 127.0.0.1 from then on; and the other way round
+    H.append((None, A, [["i", 1, "# nothing\nsearch example.com\n"]], [(10, [q(1)], [], []), (11, [q(2)], [], [])]))
+    H.append((None, A, [["i", 1, None]], [(10, [q(1)], [], []), (11, [q(2)], [], [])]))
+    H.append((None, "", [["i", 1, C6]], [(10, [q(1)], [], []), (11, [q(2)], [], []), (12, [q(3)], [], [])]))
+    H.append((None, None, [["i", 1, A], ["i", 2, ""]], [(10, [q(1)], [], []), (11, [q(2)], [], []), (12, [q(3)], [], [])]))
+    H.append((None, "", [["a", 0, B]], [(10, [q(1)], [], [("e", E.ECONNREFUSED)])]))
+    # comment / malformed lines next to accepted spellings; IPv4 -> IPv6
+    odd = "# nameserver 10.66.66.1\n;nameserver 10.66.66.2\nnameserver\nnameservers 10.66.66.4\n\tNameServer\t10.9.9.9 10.66.66.8 # two words\n" \
+          "search a.example\nNAMESERVER 2001:DB8:0:1::A\r\noptions ndots:1"
+    H.append((None, A, [["i", 1, odd], ["i", 3, A]], [(10, [q(1)], [], []), (11, [q(2)], [], []), (12, [q(3)], [], []), (13, [q(4)], [], [])]))
+    # configured resolver: the file is irrelevant, however it changes
+    H.append((("10.0.0.53", 0), A, [["i", 1, B], ["a", 1, None]], [(10, [q(1)], [], []), (11, [q(2)], [], [("e", E.ETIMEDOUT), ("k",), ("k",)])]))
+    return [(t, ResolvFile(init, rw, 7), evs) for t, init, rw, evs in H]
+
+
+def run_resolv_history(to_ns, rf, evs):
+    fresh = ResolvFile(rf.ser()["init"], rf.rewrites, rf.shuffle_seed)
+    trace = []
+    steps = run_server(to_ns, [], evs, resolv=fresh, trace=trace)
+    return steps, trace
+
+
+def resolv_verdict(prop, to_ns, evs, steps, trace):
+    targets = sorted(set(str(a["target"][0]) for a in trace)) or ["127.0.0.1"]
+    other = [(w, d) for w, d in oracle_server(prop, to_ns, [] if to_ns else targets, evs, steps) if w != "c10_target" or "attempts" in d]
+    return resolv_oracle(to_ns, evs, steps, trace) + other
+
+
+def run_c10_resolv(ctx):
+    rng, quick = ctx.rng, ctx.quick()
+    cases = [(t, rf, evs, "handmade") for t, rf, evs in handmade_resolv_histories()]
+    for _ in range(150 if quick else 3000):
+        cases.append(gen_resolv_history(rng, quick) + ("random",))
+    for to_ns, rf, evs, kind in cases:
+        steps, trace = run_resolv_history(to_ns, rf, evs)
+        viol = resolv_verdict("C10", to_ns, evs, steps, trace)
+        ctx.count("resolvconf_histories_%s" % kind)
+        ctx.count("resolvconf_attempts", len(trace))
+        ctx.count("resolvconf_attempts_after_a_rewrite", sum(1 for a in trace if a["seen"]))
+        ctx.count("resolvconf_retries_after_a_rewrite_within_one_query",
+                  sum(1 for a, b in zip(trace, trace[1:]) if not a["ok"] and a["step"] == b["step"] and a["text"] != b["text"]))
+        ctx.count("resolvconf_attempts_with_empty_or_absent_file", sum(1 for a in trace if not spec_nameservers(a["text"])))
+        ctx.count("resolvconf_attempts_ipv6", sum(1 for a in trace if ":" in str(a["target"][0])))
+        if to_ns:
+            ctx.count("resolvconf_histories_with_configured_resolver")
+        ctx.count("resolvconf_end_" + (steps[-1].split(" ")[0] if steps and not steps[-1].startswith("OK") else "OK"))
+        ser = {"oracle": "resolv-conf", "to_ns": list(to_ns) if to_ns else None, "resolv": rf.ser(),
+               "events": ser_server(to_ns, [], evs)["events"]}
+        ctx.case(("resolv", json_key(ser)), nontrivial=len(trace) > 0,
+                 sample={"side": "server+resolv.conf", "to_ns": to_ns, "rewrites": len(rf.rewrites), "attempts": len(trace)})
+        for what, detail in viol:
+            ctx.violation(what, dict(ser, detail=detail))
+
+
+def replay_c10_resolv(prop, rp):
+    r = rp["replay"]
+    to_ns, _, evs = des_server({"to_ns": r["to_ns"], "sysns": [], "events": r["events"]})
+    rf = ResolvFile(r["resolv"]["init"], r["resolv"]["rewrites"], r["resolv"].get("shuffle_seed", 0))
+    steps, trace = run_resolv_history(to_ns, rf, evs)
+    v = resolv_verdict(prop, to_ns, evs, steps, trace)
+    for a in trace:
+        print("  iteration %d attempt #%d -> %s port %s   (resolv.conf names %s; opened %d times so far)"
+              % (a["step"], a["attempt"], a["target"][0], a["target"][1], spec_nameservers(a["text"]) or "nothing", a["reads"]))
+    print("resolv.conf history ->", steps[-1][:120] if steps else "", [d for w, d in v])
     return bool(v)
